@@ -671,6 +671,9 @@ pub fn main(args: &Args) {
         t2.push((p("d.sql/e.sql"), false));
         items.push(Item::Pipe(0, TreeCase { tree: t2, exts_cfg: s(""), lines: None, args: vec![(1, vec![])], cls: "regression" }));
         items.push(Item::Pipe(0, TreeCase { tree: t1.clone(), exts_cfg: s(".SQL"), lines: None, args: vec![(1, vec![]), (3, p("sub"))], cls: "regression" }));
+        // a negation cannot re-include below an ignored directory; "*/" does not ignore root-level files
+        items.push(Item::Pipe(0, TreeCase { tree: t1.clone(), exts_cfg: s(""), lines: Some(vec![s("temp/"), s("!b.sql"), s("!c.sql")]), args: vec![(1, vec![])], cls: "regression" }));
+        items.push(Item::Pipe(0, TreeCase { tree: t1.clone(), exts_cfg: s(""), lines: Some(vec![s("*/")]), args: vec![(1, vec![]), (0, p("sub/temp/c.sql"))], cls: "regression" }));
         items.push(Item::Gi(GiItem {
             lines: readme.clone(),
             paths: vec![(p("temp/b.sql"), false), (p("sub/temp/c.sql"), false), (p("a.sql"), false), (p("x.hql"), false), (p("sub/x.hql"), false), (p("temp"), true), (p("temp"), false)],
